@@ -32,6 +32,8 @@ pub enum QOp {
     Read { h: usize },
     OpenGate { g: usize },
     Yield,
+    /// `flush()` through the queuing handle (reaches the wrapped sink directly)
+    Flush { h: usize },
 }
 
 #[derive(Clone, Debug, Serialize, Deserialize)]
@@ -50,6 +52,11 @@ pub struct QCase {
     pub observer: bool,
     /// whether that last handle is finally dropped (true) or kept alive for ever (false)
     pub final_drop: bool,
+    /// None: the wrapped sink is purely scripted. Some(cap): a real BufferedUdpMetricSink of that
+    /// capacity over a simulated socket sits behind the scripted outcomes (ok / slow / stall
+    /// delegate to it; error and panic outcomes are raised before it is reached)
+    #[serde(default)]
+    pub wrapped_buffered: Option<usize>,
 }
 
 const SLOTS: usize = 3;
@@ -85,6 +92,7 @@ struct ProdEv {
 }
 
 struct Shared {
+    ctl: Option<cadence_dsim::net::SockCtl>,
     log: Mutex<Vec<Ev>>,
     prod: Mutex<Vec<ProdEv>>,
     samples: Mutex<Vec<(u64, u64)>>,
@@ -96,6 +104,8 @@ struct Shared {
 
 struct ScriptedSink {
     sh: Arc<Shared>,
+    /// owned by the wrapped sink itself, so that dropping the wrapped sink drops (and flushes) it
+    inner: Option<cadence::BufferedUdpMetricSink>,
 }
 
 struct ExitGuard<'a> {
@@ -111,6 +121,18 @@ impl Drop for ExitGuard<'_> {
 }
 
 impl MetricSink for ScriptedSink {
+    fn flush(&self) -> io::Result<()> {
+        kernel::event(|| "wrapped.flush".to_string(), &[0x74]);
+        self.flush_inner()
+    }
+
+    fn stats(&self) -> cadence::SinkStats {
+        match &self.inner {
+            Some(i) => i.stats(),
+            None => cadence::SinkStats::default(),
+        }
+    }
+
     fn emit(&self, metric: &str) -> io::Result<usize> {
         let k = self.sh.invocations.fetch_add(1, O::SeqCst);
         let task = kernel::current_task().unwrap_or(usize::MAX);
@@ -120,6 +142,25 @@ impl MetricSink for ScriptedSink {
         h.bytes(metric.as_bytes());
         kernel::event(|| format!("wrapped.emit#{k} {metric:?} -> {outcome:?}"), &[0x70, k as u64, h.0]);
         let _g = ExitGuard { sh: &self.sh, k, outcome: outcome.clone() };
+        if let Some(inner) = &self.inner {
+            // a real buffered sink behind the script
+            match &outcome {
+                SinkOutcome::Ok | SinkOutcome::OkZero => return inner.emit(metric),
+                SinkOutcome::Slow(j) => {
+                    for _ in 0..*j {
+                        kernel::yield_now();
+                    }
+                    return inner.emit(metric);
+                }
+                SinkOutcome::Stall(g) => {
+                    if let Some(gate) = self.sh.gates.get(*g) {
+                        gate.wait("wrapped sink stalled");
+                    }
+                    return inner.emit(metric);
+                }
+                _ => {}
+            }
+        }
         match outcome {
             SinkOutcome::Ok => {
                 kernel::yield_now();
@@ -146,6 +187,15 @@ impl MetricSink for ScriptedSink {
                 }
                 Ok(metric.len())
             }
+        }
+    }
+}
+
+impl ScriptedSink {
+    fn flush_inner(&self) -> io::Result<()> {
+        match &self.inner {
+            Some(i) => i.flush(),
+            None => Ok(()),
         }
     }
 }
@@ -185,6 +235,7 @@ struct Obs {
     snaps: Vec<Snapshot>,
     final_tasks: Vec<TaskInfo>,
     all_dropped: bool,
+    ledger: Vec<cadence_dsim::net::SendRec>,
 }
 
 pub struct E3;
@@ -300,6 +351,19 @@ fn run_prog(task_no: usize, ops: &[QOp], first: QueuingMetricSink, sh: &Arc<Shar
                 }
             }
             QOp::Yield => kernel::yield_now(),
+            QOp::Flush { h } => {
+                if let Some(q) = slots.get(*h).and_then(|s| s.as_ref()) {
+                    kernel::set_label("flush through the queuing sink");
+                    let before = stats3();
+                    let r = call(|| q.flush());
+                    let res = match r {
+                        Ok(Ok(())) => ApiRes::Unit,
+                        Ok(Err(e)) => ApiRes::Err(e.to_string()),
+                        Err(p) => ApiRes::Panicked(p),
+                    };
+                    record(sh, "flush", None, String::new(), res, before, false);
+                }
+            }
         }
     }
     // the end of the program drops whatever handles the task still owns, one by one
@@ -328,7 +392,16 @@ fn snapshot(sh: &Shared, observer: Option<&QueuingMetricSink>, label: &'static s
 }
 
 fn sim_main(case: QCase) -> Obs {
+    let (inner, ctl) = match case.wrapped_buffered {
+        Some(cap) => {
+            let socket = cadence_dsim::net::UdpSocket::bind("0.0.0.0:0").unwrap();
+            let ctl = socket.ctl();
+            (Some(cadence::BufferedUdpMetricSink::with_capacity("127.0.0.1:8125", socket, cap).unwrap()), Some(ctl))
+        }
+        None => (None, None),
+    };
     let sh = Arc::new(Shared {
+        ctl,
         log: Mutex::new(Vec::new()),
         prod: Mutex::new(Vec::new()),
         samples: Mutex::new(Vec::new()),
@@ -338,7 +411,7 @@ fn sim_main(case: QCase) -> Obs {
         sink_drops: AtomicUsize::new(0),
     });
     kernel::set_label("construct");
-    let sink = ScriptedSink { sh: sh.clone() };
+    let sink = ScriptedSink { sh: sh.clone(), inner };
     let q = if case.via_builder || case.handler {
         let mut b = QueuingMetricSink::builder();
         if let Some(c) = case.cap {
@@ -421,10 +494,11 @@ fn sim_main(case: QCase) -> Obs {
     let log = sh.log.lock().unwrap().clone();
     let prod = sh.prod.lock().unwrap().clone();
     let samples = sh.samples.lock().unwrap().clone();
-    Obs { log, prod, samples, chan: kernel::chan_log(), snaps, final_tasks: kernel::task_table(), all_dropped }
+    let ledger = sh.ctl.as_ref().map(|c| c.ledger()).unwrap_or_default();
+    Obs { log, prod, samples, chan: kernel::chan_log(), snaps, final_tasks: kernel::task_table(), all_dropped, ledger }
 }
 
-fn gen_prog(rng: &mut Rng, n: usize, next_id: &mut u32, n_gates: usize, w_clone: u32, w_drop: u32) -> Vec<QOp> {
+fn gen_prog(rng: &mut Rng, n: usize, next_id: &mut u32, n_gates: usize, w_clone: u32, w_drop: u32, w_flush: u32) -> Vec<QOp> {
     let mut ops = Vec::new();
     let mut alive = [true, false, false];
     for _ in 0..n {
@@ -437,6 +511,7 @@ fn gen_prog(rng: &mut Rng, n: usize, next_id: &mut u32, n_gates: usize, w_clone:
             if live.is_empty() { 0 } else { 5 },
             if n_gates > 0 { 6 } else { 0 },
             5,
+            if live.is_empty() { 0 } else { w_flush },
         ];
         if w.iter().sum::<u32>() == 0 {
             break;
@@ -458,6 +533,7 @@ fn gen_prog(rng: &mut Rng, n: usize, next_id: &mut u32, n_gates: usize, w_clone:
             }
             3 => ops.push(QOp::Read { h: *rng.pick(&live) }),
             4 => ops.push(QOp::OpenGate { g: rng.usize_below(n_gates) }),
+            6 => ops.push(QOp::Flush { h: *rng.pick(&live) }),
             _ => ops.push(QOp::Yield),
         }
     }
@@ -488,7 +564,8 @@ impl Engine for E3 {
     fn required_probes(focus: &str) -> &'static [&'static str] {
         match focus {
             "C08" => &["clone_dropped_then_emit_on_survivor", "multi_producer_interleaved", "emit_refused_full"],
-            "C09" => &["drop_with_full_queue", "drop_with_empty_queue", "drop_while_worker_stalled", "last_drop_by_producer"],
+            "C09" => &["drop_with_full_queue", "drop_with_empty_queue", "drop_while_worker_stalled", "last_drop_by_producer", "wrapped_buffered_drop_checked"],
+            "C06" => &["flush_through_queuing_sink", "wrapped_buffered_runs"],
             "C10" => &["emit_while_worker_stalled", "emit_refused_full", "emit_accepted_at_cap_minus_one"],
             "C11" => &["panic_fired", "consecutive_panics", "panic_on_first_queued", "panic_on_last_queued", "panic_while_stop_pending"],
             "C15" => &["worker_drained_before_submit_counted", "sampler_read", "quiescent_counters_checked"],
@@ -525,12 +602,30 @@ impl Engine for E3 {
             "C08" | "C09" => (14, 12),
             _ => (6, 6),
         };
+        let wrapped_buffered = match focus {
+            "C06" => Some(*cfg.pick(&[16usize, 24, 64, 512])),
+            "C09" => {
+                if cfg.chance(1, 3) {
+                    Some(*cfg.pick(&[16usize, 64, 512]))
+                } else {
+                    None
+                }
+            }
+            _ => {
+                if cfg.chance(1, 8) {
+                    Some(64)
+                } else {
+                    None
+                }
+            }
+        };
+        let w_flush = if wrapped_buffered.is_some() { 14 } else { 2 };
         let n_main = prog.usize_below(9);
-        let main_ops = gen_prog(&mut prog, n_main, &mut next_id, n_gates, w_clone, w_drop);
+        let main_ops = gen_prog(&mut prog, n_main, &mut next_id, n_gates, w_clone, w_drop, w_flush);
         let mut producers = Vec::new();
         for _ in 0..n_prod {
             let n = prog.usize_below(9);
-            producers.push(gen_prog(&mut prog, n, &mut next_id, n_gates, w_clone, w_drop));
+            producers.push(gen_prog(&mut prog, n, &mut next_id, n_gates, w_clone, w_drop, w_flush));
         }
         let total_emits = next_id as usize;
         // outcome plan
@@ -579,7 +674,7 @@ impl Engine for E3 {
             _ => [35, 20, 20, 15, 10],
         };
         let sched = SchedSpec::generate(&mut sch, &weights);
-        QCase { sched, cap, via_builder, handler, plan, n_gates, main_ops, producers, sampler, observer, final_drop }
+        QCase { sched, cap, via_builder, handler, plan, n_gates, main_ops, producers, sampler, observer, final_drop, wrapped_buffered }
     }
 
     fn pin_schedule(case: &QCase, o: &Outcome) -> QCase {
@@ -672,6 +767,11 @@ impl Engine for E3 {
         if case.observer {
             let mut c = case.clone();
             c.observer = false;
+            v.push(c);
+        }
+        if case.wrapped_buffered.is_some() {
+            let mut c = case.clone();
+            c.wrapped_buffered = None;
             v.push(c);
         }
         for s in case.sched.shrink() {
@@ -878,7 +978,20 @@ fn judge(case: &QCase, main: &Option<Obs>, end_tasks: &[TaskInfo], out: &mut Out
                 }
             }
             (ApiRes::Err(msg), None) => {
-                out.violate(&["C10"], "queue.refused-without-trying", format!("emit {} returned Err({msg}) without trying the queue", e.s));
+                // refused without a queue operation of its own (a variant that keeps its own
+                // bookkeeping): judge by the occupancy the channel trace shows during the call
+                out.probe("emit_refused_full");
+                match case.cap {
+                    None => out.violate(&["C10"], "queue.unbounded-refused", format!("an unbounded queue refused {}: {msg}", e.s)),
+                    Some(cap) => {
+                        let before = obs.chan.iter().filter(|c| c.step <= e.step_before).last().map(|c| c.len_after).unwrap_or(0);
+                        let during: Vec<usize> = obs.chan.iter().filter(|c| c.step > e.step_before && c.step <= e.step_at).map(|c| c.len_after).collect();
+                        let max_occ = during.iter().copied().chain(std::iter::once(before)).max().unwrap_or(0);
+                        if max_occ < cap {
+                            out.violate(&["C10"], "queue.refused-with-room", format!("emit {} was refused ({msg}) while the queue never held more than {max_occ} of {cap} during the call", e.s));
+                        }
+                    }
+                }
             }
             _ => {}
         }
@@ -1021,6 +1134,54 @@ fn judge(case: &QCase, main: &Option<Obs>, end_tasks: &[TaskInfo], out: &mut Out
     }
     if obs.snaps.first().map(|s| s.tasks.iter().any(|t| t.anon && matches!(t.state, TState::Blocked { .. }) && t.label.is_empty())).unwrap_or(false) {
         // a worker was blocked at the first idle point
+    }
+    // ---- a real buffered sink behind the queue: what reached the wire (C06 through the wrapper, C09) ----
+    if case.wrapped_buffered.is_some() {
+        out.probe("wrapped_buffered_runs");
+        // metrics the buffered sink accepted: delivered with an outcome that delegates to it
+        let handed: Vec<(usize, &String, u64)> = obs
+            .log
+            .iter()
+            .filter_map(|e| match e {
+                Ev::SinkExit { k, outcome, step } if matches!(outcome, SinkOutcome::Ok | SinkOutcome::OkZero | SinkOutcome::Slow(_) | SinkOutcome::Stall(_)) => {
+                    delivered.iter().find(|d| d.0 == *k).map(|d| (*k, &d.1, *step))
+                }
+                _ => None,
+            })
+            .collect();
+        let on_wire = |text: &str, by_step: u64| -> usize {
+            let needle = format!("{text}\n");
+            obs.ledger.iter().filter(|r| r.result.is_ok() && r.step <= by_step && find_sub(&r.payload, needle.as_bytes())).count()
+        };
+        // flush barrier through the queuing handle
+        for f in obs.prod.iter().filter(|e| e.what == "flush" && matches!(e.res, ApiRes::Unit)) {
+            out.probe("flush_through_queuing_sink");
+            for (k, text, exit_step) in &handed {
+                if *exit_step < f.step_before && on_wire(text, f.step_at) == 0 {
+                    out.violate(
+                        &["C06"],
+                        "queue.flush-ok-but-not-written",
+                        format!("flush through the queuing sink returned Ok at step {} but metric {text:?} (handed to the buffered sink as #{k}, which returned at step {exit_step}) was not on the wire", f.step_at),
+                    );
+                    break;
+                }
+            }
+        }
+        // after the last drop the wrapped buffered sink is dropped and must have flushed the rest
+        if obs.all_dropped && obs.final_tasks.iter().all(|t| !t.anon || t.state == TState::Finished) {
+            for (k, text, _) in &handed {
+                let n = on_wire(text, u64::MAX);
+                if n != 1 {
+                    out.violate(
+                        &panic_props(&["C09"]),
+                        "queue.wrapped-buffered-sink-not-flushed",
+                        format!("all handles are dropped and the background thread ended, but metric {text:?} (#{k}) accepted by the wrapped buffered sink is on the wire {n} times"),
+                    );
+                    break;
+                }
+            }
+            out.probe("wrapped_buffered_drop_checked");
+        }
     }
     // clone dropped, then emit on a surviving handle
     {
@@ -1187,4 +1348,8 @@ fn judge(case: &QCase, main: &Option<Obs>, end_tasks: &[TaskInfo], out: &mut Out
             out.trace.push(format!("snapshot '{}': counters={:?} acks={} sink_enters={} panics_fired={}", s.label, s.counters, s.acks, s.sink_enters, s.panics_fired));
         }
     }
+}
+
+fn find_sub(h: &[u8], n: &[u8]) -> bool {
+    !n.is_empty() && h.windows(n.len()).any(|w| w == n)
 }
